@@ -82,13 +82,13 @@ Section DsaSel.
     match type of H with (let '(s1, e1) := ?X in _) = _ => destruct X as [s1 e1] eqn:E1 end.
     assert (HJ1 : dsaJ n s1 /\ Forall dsaPev e1).
     { destruct (0 <? _).
-      - eapply probabilistic_change_ok; eauto. Show.
+      - eapply probabilistic_change_ok; [| | |exact E1]; auto.
       - destruct (variant =? 0); [inversion E1; subst; split; [exact HJ|constructor]|].
         destruct (variant =? 1).
         + destruct (exists_violated _ _ _ _).
-          * eapply probabilistic_change_ok; eauto.
+          * eapply probabilistic_change_ok; [| | |exact E1]; auto.
           * inversion E1; subst; split; [exact HJ|constructor].
-        + eapply probabilistic_change_ok; eauto. }
+        + eapply probabilistic_change_ok; [| | |exact E1]; auto. }
     destruct HJ1 as [A B].
     destruct (negb (stop =? 0) && (stop <=? ds_cycle s1 + 1)); inversion H; subst; clear H; split;
       try (intros w Hw; simpl in Hw; apply A; exact Hw);
@@ -143,6 +143,7 @@ Section DsaSel.
     - inversion H; subst; clear H. split; [exact HJ|repeat constructor].
   Qed.
 End DsaSel.
+About dsa_start_ok.
 
 Theorem dsa_selects_in_domain : forall d stop variant prob fo_vc orc sched,
   (forall n, dom_of d n <> []) ->
@@ -158,13 +159,13 @@ Proof.
             p_start (dsa_proto d stop variant prob fo_vc orc) n s = (s', outs, evs) ->
             dsaJ d n s' /\ outs_ok (fun _ _ (_ : mmsg) => True) n outs /\ Forall (dsaPev d) evs).
   { intros n s s' outs evs HJ H. simpl in H.
-    destruct (dsa_start_ok d stop variant prob fo_vc Hdom _ _ _ _ _ HJ H) as [A B].
+    destruct (dsa_start_ok d stop variant prob fo_vc Hdom n s s' outs evs HJ H) as [A B].
     split; [exact A|split; [|exact B]]. unfold outs_ok. apply Forall_forall. auto. }
   assert (Hrecv : forall n s src m s' outs evs, dsaJ d n s -> True ->
             p_recv (dsa_proto d stop variant prob fo_vc orc) n s src m = (s', outs, evs) ->
             dsaJ d n s' /\ outs_ok (fun _ _ (_ : mmsg) => True) n outs /\ Forall (dsaPev d) evs).
   { intros n s src m s' outs evs HJ _ H. simpl in H.
-    destruct (dsa_recv_ok d stop variant prob fo_vc Hdom _ _ _ _ _ _ _ HJ H) as [A B].
+    destruct (dsa_recv_ok d stop variant prob fo_vc Hdom n s src m s' outs evs HJ H) as [A B].
     split; [exact A|split; [|exact B]]. unfold outs_ok. apply Forall_forall. auto. }
   split.
   - intros n v c k Hin.
